@@ -796,6 +796,9 @@ impl Interp {
                         self.label("list_concat");
                         if self.sem.sum_reuses_left {
                             let bb = b.borrow().clone();
+                            if a.borrow().len() + bb.len() > self.lim.container {
+                                return Err(Abort::Discard("container too large"));
+                            }
                             a.borrow_mut().extend(bb);
                             return Ok(Val::List(a.clone()));
                         }
@@ -943,6 +946,9 @@ impl Interp {
                             };
                             self.in_slot -= 1;
                             out.extend_from_slice(&r?);
+                            if out.len() > self.lim.out_bytes {
+                                return Err(Abort::Discard("string too large"));
+                            }
                         },
                     }
                 }
